@@ -11,10 +11,17 @@ import (
 
 // vRetainedVersionsReadable: every version object still present under root/
 // (current or merged) must be fully readable: all nodes it refers to exist.
-func vRetainedVersionsReadable(bkt *vBucket) bool {
+func vRetainedVersionsReadable(bkt *vBucket) bool { return vVersionsReadable(bkt, nil) }
+
+// vVersionsReadable: with only != nil, just the versions whose object name is
+// in that set are checked.
+func vVersionsReadable(bkt *vBucket, only map[string]bool) bool {
 	ok := true
 	for _, pfx := range []string{vPrefix + "/root/current/", vPrefix + "/root/merged/"} {
 		for _, name := range bkt.names(pfx) {
+			if only != nil && !only[name] {
+				continue
+			}
 			ver := name[len(pfx):]
 			r, err := vOpen(bkt.fork().client(6), vTableOpts{bf: 2, readOnly: true, versions: []string{ver}}, 990)
 			if err != nil {
